@@ -53,7 +53,7 @@ REAL_VS_STUB = {
              "by a spy that can raise"],
 }
 TIERS = {
-    "quick": {"runs": 1600, "budget_s": 70, "chunk": 16, "det_pairs": 48, "fresh": 4},
+    "quick": {"runs": 3200, "budget_s": 60, "chunk": 16, "det_pairs": 48, "fresh": 4},
     "thorough": {"runs": 40000, "budget_s": 900, "chunk": 24, "det_pairs": 384, "fresh": 24},
 }
 
@@ -185,6 +185,10 @@ def _gen_droplet_tracker(rng, grid, collection):
             o["perturbation_modes"] = rng.choice([1, 2, 3])
     if rng.random() < 0.2:
         o["prefill"] = rng.randint(1, 3)
+    # how the stored fields are analysed afterwards: from memory, from a file storage written
+    # to and read back from the (simulated) disk, by worker processes (simulated pool, later
+    # frames finishing first), or with the progress display on / left to its default
+    o["offline"] = rng.choice(["memory", "memory", "file", "parallel", "progress", "progress_default"])
     if collection:
         o["source"] = rng.choice([1, 0, "second", "first"])
     else:
@@ -196,7 +200,7 @@ def _gen_length_tracker(rng, collection, n_handles_hint):
     o = {"type": "length",
          "method": rng.choice(["structure_factor_mean", "structure_factor_maximum",
                                "droplet_detection"]),
-         "filename": rng.random() < 0.3, "verbose": False}
+         "filename": rng.random() < 0.3, "verbose": rng.random() < 0.3}
     if collection:
         o["source"] = rng.choice([1, 0, "second"])
     else:
@@ -826,8 +830,10 @@ def _check_droplet_history(spec, tr, tapped, finalized, fs, V, cnt, log, MemoryS
               dict(threshold=spec["threshold"], minimal_radius=spec["minimal_radius"],
                    modes=spec["perturbation_modes"], refine=spec["refine"],
                    refine_args=copy.deepcopy(spec["refine_args"])))
+        how = spec.get("offline", "memory")
+        cnt.inc("offline." + how)
         try:
-            off = droplets.EmulsionTimeCourse.from_storage(st, num_processes=1, progress=False, **kw)
+            off = _offline_analysis(how, st, kw, fs, cnt)
         except Exception:
             cnt.inc("probe.offline_history_raised")
             off = None
@@ -863,6 +869,40 @@ def _check_droplet_history(spec, tr, tapped, finalized, fs, V, cnt, log, MemoryS
                                "the recorded data", {**sig, "kind": "file_differs"}))
     elif finalized and spec["filename"]:
         cnt.inc("probe.finalize_raised")
+
+
+def _offline_analysis(how, st, kw, fs, cnt):
+    """EmulsionTimeCourse.from_storage over the stored frames, reached in different ways."""
+    import contextlib
+    import io
+
+    import droplets
+    from simkit import simexec
+
+    if how == "file":
+        from pde import FileStorage
+
+        path = f"{simfs.ROOT}/stored_frames_{fs.total_writes}.h5"
+        w = FileStorage(path, write_mode="truncate")
+        w.start_writing(st[0])
+        for t, f in st.items():
+            w.append(f, t)
+        w.end_writing()
+        w.close()
+        r = FileStorage(path, write_mode="readonly")
+        try:
+            return droplets.EmulsionTimeCourse.from_storage(r, num_processes=1, progress=False, **kw)
+        finally:
+            r.close()
+    if how == "parallel":
+        with simexec.PoolScript(auto_workers=3, choices=[2, 1, 0, 1], counters=cnt):
+            return droplets.EmulsionTimeCourse.from_storage(st, num_processes=3, progress=False, **kw)
+    if how in ("progress", "progress_default"):
+        with contextlib.redirect_stderr(io.StringIO()):
+            if how == "progress":
+                return droplets.EmulsionTimeCourse.from_storage(st, num_processes=1, progress=True, **kw)
+            return droplets.EmulsionTimeCourse.from_storage(st, **kw)
+    return droplets.EmulsionTimeCourse.from_storage(st, num_processes=1, progress=False, **kw)
 
 
 def _probe_json(fs, path, tr, cnt):
